@@ -79,7 +79,8 @@ def main(argv=None) -> int:
     c.add_argument("--tier", default=os.environ.get("VERIF_TIER", "quick"))
     r = sub.add_parser("replay")
     r.add_argument("path")
-    sub.add_parser("selftest")
+    st = sub.add_parser("selftest")
+    st.add_argument("prop", nargs="?", default=None)
     a = sub.add_parser("all")
     a.add_argument("--tier", default="quick")
     args = ap.parse_args(argv)
@@ -111,7 +112,7 @@ def main(argv=None) -> int:
         if args.cmd == "selftest":
             from . import selftest
 
-            return selftest.main(seed)
+            return selftest.main(seed, args.prop.upper() if args.prop else None)
         if args.cmd == "all":
             worst = 0
             for p in PROPS:
